@@ -20,8 +20,9 @@
    C05_steering_only_V_W, C05_steering_W_only_null, C05_steering_V_not_null and
    C05_route_custom_frame are unfolding lemmas (see the block at the end).
    Not proved (covered by the correspondence only): that parse_section of body i yields
-   the items a specification would assign (that is C03/C04) and permutation invariance as a
-   single statement. *)
+   the items a specification would assign (that is C03/C04).  Permutation invariance: see
+   C05_views_permutation / C05_view_of_moved_block at the end of the file (at the level of the
+   views; what `read` makes of them depends on order only through the steering values). *)
 From Coq Require Import List Arith NArith Bool String.
 Import ListNotations.
 Require Import PyStr Regex Num Sections Read SectionsProofs ReadProofs.
@@ -170,8 +171,15 @@ Print Assumptions C05_steering_current.
                          (NULL allowed), lines that do not parse to NULL in ~W (VERS/WRAP/DLM
                          allowed) -- and ANY change of ~O and data bodies leave the steering values
                          unchanged (whenever both first passes succeed).
-   Not proved: permutation invariance as a single statement (C05_read_blocks_congr is per
-   position; a permuted file is a different sequence of views). *)
+     C05_views_permutation / C05_view_of_moved_block / C05_sections_count_perm
+                         permutation invariance as one statement: for ANY reordering of the blocks
+                         of a file (and any change of the title-free lines before the first title)
+                         the multiset of (title, body slice, ~Other text) triples the reader sees
+                         is the same -- every moved block is still seen with exactly its own title,
+                         body lines and text, and the number of sections is unchanged.  Stated for
+                         the views: the result of `read` on a permuted file may differ, but only
+                         through the steering values (a ~V after ~W etc.), which the C05_steering
+                         theorems characterise. *)
 Require Import SectionParse DataRead SectionsProofs JunkProofs JunkSteering ReadCongr BlocksCongr JunkRead SteeringFrame.
 
 Theorem C05_others : forall pre bs, notitles pre -> Forall wf_block bs ->
@@ -313,4 +321,30 @@ Print Assumptions C05_steering_read_blocks.
 Print Assumptions C05_steer_sec_unfold.
 Print Assumptions C05_steer_ins_block_unfold.
 Print Assumptions C05_read_steering_unfold.
+(* ---- permutation invariance of the attribution of lines (Proofs/ViewsPerm.v) ---- *)
+Require Import Permutation ViewsPerm.
+
+Theorem C05_views_permutation : forall pre pre' bs bs',
+  notitles pre -> notitles pre' -> Forall wf_block bs -> Permutation bs bs' ->
+  Permutation (map (view (pre ++ render bs)) (find_sections (pre ++ render bs)))
+              (map (view (pre' ++ render bs')) (find_sections (pre' ++ render bs'))).
+Proof. exact views_permutation. Qed.
+
+Theorem C05_view_of_moved_block : forall pre pre' bs bs' b,
+  notitles pre -> notitles pre' -> Forall wf_block bs -> Permutation bs bs' -> In b bs ->
+  In (block_view b) (map (view (pre' ++ render bs')) (find_sections (pre' ++ render bs'))).
+Proof. exact view_of_moved_block. Qed.
+
+Theorem C05_sections_count_perm : forall pre pre' bs bs',
+  notitles pre -> notitles pre' -> Forall wf_block bs -> Permutation bs bs' ->
+  List.length (find_sections (pre ++ render bs)) = List.length (find_sections (pre' ++ render bs')).
+Proof. exact sections_count_perm. Qed.
+
+(* non-vacuity: the example blocks reversed are a permutation and well-formed *)
+Example C05_ex_perm : Permutation ex_base (rev ex_base) /\ Forall wf_block ex_base.
+Proof. split; [apply Permutation_rev | exact (proj1 steering_ex_wf)]. Qed.
+
+Print Assumptions C05_views_permutation.
+Print Assumptions C05_view_of_moved_block.
+Print Assumptions C05_sections_count_perm.
 (* ==== END block "read level" (audit D6) ========================================================= *)
